@@ -89,6 +89,8 @@ type Env struct {
 	ByVar  map[string][]*RootCtx
 	Res    *Result
 	Params map[string]string
+	// FuzzOut: under the native fuzzer a violation is appended to this file by the worker that found it
+	FuzzOut string
 }
 
 func (e *Env) Param(k, def string) string {
@@ -103,6 +105,12 @@ func (e *Env) Fail(t *rapid.T, format string, args ...interface{}) {
 	msg := fmt.Sprintf(format, args...)
 	e.Res.Violation = msg
 	e.Res.failed = true
+	if e.FuzzOut != "" {
+		if fh, err := os.OpenFile(e.FuzzOut, os.O_APPEND|os.O_CREATE|os.O_WRONLY, 0o644); err == nil {
+			fmt.Fprintln(fh, msg)
+			fh.Close()
+		}
+	}
 	t.Fatalf("%s", msg)
 }
 
@@ -163,19 +171,10 @@ func errorDiags(d diag.Diagnostics) []string {
 
 var inner = map[string]func(t *rapid.T, e *Env){}
 
-// Run is the single test of a compiled case.
-func Run(t *testing.T) {
+// loadEnv reads the spec, binds every registered root to its model and returns the environment of the case.
+// Violations found while loading (GenSchema panics / errors) are reported through res.
+func loadEnv(t testing.TB, res *Result) *Env {
 	p := os.Getenv("VERIF_SPEC")
-	if p == "" {
-		t.Skip("no VERIF_SPEC")
-	}
-	res := &Result{Classes: map[string]int{}, seen: map[uint64]bool{}}
-	defer func() {
-		if out := os.Getenv("VERIF_OUT"); out != "" {
-			b, _ := json.MarshalIndent(res, "", " ")
-			_ = os.WriteFile(out, b, 0o644)
-		}
-	}()
 	harness := func(format string, a ...interface{}) {
 		res.Harness = fmt.Sprintf(format, a...)
 		t.Fatalf("harness: %s", res.Harness)
@@ -237,11 +236,27 @@ func Run(t *testing.T) {
 	if len(env.Roots) == 0 {
 		harness("no roots")
 	}
-	fn := inner[env.Spec.Prop]
-	if fn == nil {
+	if inner[env.Spec.Prop] == nil {
 		harness("no inner property %q", env.Spec.Prop)
 	}
 	setupHooks()
+	return env
+}
+
+// Run is the single test of a compiled case.
+func Run(t *testing.T) {
+	if os.Getenv("VERIF_SPEC") == "" {
+		t.Skip("no VERIF_SPEC")
+	}
+	res := &Result{Classes: map[string]int{}, seen: map[uint64]bool{}}
+	defer func() {
+		if out := os.Getenv("VERIF_OUT"); out != "" {
+			b, _ := json.MarshalIndent(res, "", " ")
+			_ = os.WriteFile(out, b, 0o644)
+		}
+	}()
+	env := loadEnv(t, res)
+	fn := inner[env.Spec.Prop]
 	_ = flag.CommandLine
 	rapid.Check(t, func(rt *rapid.T) {
 		if !res.failed {
@@ -249,6 +264,22 @@ func Run(t *testing.T) {
 		}
 		fn(rt, env)
 	})
+}
+
+// Fuzz is the native fuzz target of a compiled case (engine F): the byte input is rapid's bit
+// stream, so the inner property, its generators and its oracle are exactly those of Run.
+func Fuzz(f *testing.F) {
+	if os.Getenv("VERIF_SPEC") == "" {
+		f.Skip("no VERIF_SPEC")
+	}
+	res := &Result{Classes: map[string]int{}, seen: map[uint64]bool{}}
+	env := loadEnv(f, res)
+	env.FuzzOut = os.Getenv("VERIF_FUZZ_OUT")
+	fn := inner[env.Spec.Prop]
+	for _, seed := range [][]byte{{}, {0}, {0xff, 0xff, 0xff, 0xff, 0xff, 0xff, 0xff, 0xff}, []byte("0123456789abcdef0123456789abcdef")} {
+		f.Add(seed)
+	}
+	f.Fuzz(rapid.MakeFuzz(func(rt *rapid.T) { fn(rt, env) }))
 }
 
 func drawRoot(t *rapid.T, e *Env) *RootCtx {
